@@ -111,6 +111,9 @@ type ReplayFile struct {
 
 func writeReplay(dir string, c *harness.Case, out *harness.Outcome) string {
 	os.MkdirAll(dir, 0755)
+	if out.ReplayCase != nil {
+		c = out.ReplayCase
+	}
 	cc := *c
 	cc.Decisions = out.Decisions
 	rf := ReplayFile{Case: &cc, Violation: out.Violation, TraceHash: out.TraceHash}
